@@ -467,6 +467,11 @@ def lang_workload(ctx, n_docs, n_seq, seq_len, hostile=True, mutants=True):
             ctoks, cfeats = docgen.gen_tokens(rng, start, fragment_variables=fragvars, const_violation=True)
             if "const-violation" in cfeats:
                 yield entry, lexgen.render(rng, ctoks), flags, "variable-in-const-position", False, False
+        # ... and with one reserved word in a name position (labelled invalid)
+        if start in ("executable", "typesystem") and rng.random() < 0.3:
+            rtoks, rfeats = docgen.gen_tokens(rng, start, fragment_variables=fragvars, reserved_violation=True)
+            if "reserved-violation" in rfeats:
+                yield entry, lexgen.render(rng, rtoks), flags, "reserved-word-in-name-position", False, False
         if not mutants:
             continue
         for op, mt in mutate.token_mutants(rng, toks, 4):
